@@ -9,7 +9,7 @@ import ast
 import itertools
 
 from sa import dataflow as df
-from sa.annot import ALL, CLOSED9, PSD, SA, ST, UN, WHY_NOT, Interp, OpD, SliceD, Undecidable, allowed, closure, raw_subsets
+from sa.annot import ALL, CLOSED9, PSD, SA, ST, UN, WHY_NOT, Interp, OpD, RaisesAtRuntime, SliceD, Undecidable, allowed, closure, raw_subsets
 from sa.own import Own
 from sa.prov import ANNOT_NAMES, ORDER, Ortho, mat
 from sa.resolver import Arg, Resolver
@@ -52,6 +52,13 @@ def product_configs(tier):
             yield [OpD(W, true_wrapper_annots(K), [K]), X, K2]
             K, X = leaf(a, "K"), leaf(x, "X")
             yield [OpD(W, true_wrapper_annots(K), [K]), X, sc(frozenset()), K]
+            # a Gram pair followed (or preceded) by a further factor: not a Gram matrix any more
+            K, X = leaf(a, "K"), leaf(x, "X")
+            yield [OpD(W, true_wrapper_annots(K), [K]), K, X]
+            K, X = leaf(a, "K"), leaf(x, "X")
+            yield [K, OpD(W, true_wrapper_annots(K), [K]), X]
+            K, X = leaf(a, "K"), leaf(x, "X")
+            yield [X, OpD(W, true_wrapper_annots(K), [K]), K]
 
 
 def nary_configs():
@@ -77,10 +84,11 @@ def configs_for(kind, tier):
             yield OpD(kind, (), [OpD("Dense", a, label="B")])
     elif kind == "Sliced":
         for a in raw_subsets():
-            for k0, k1, same in (("slice", "slice", True), ("slice", "slice", False), ("array", "array", True), ("array", "array", False),
-                                 ("slice", "array", False), ("array", "slice", False)):
-                s0 = SliceD(k0, 0)
-                s1 = SliceD(k1, 0 if same else 1)
+            for k0, k1, same, overlap in (("slice", "slice", True, False), ("slice", "slice", False, False), ("array", "array", True, False),
+                                          ("array", "array", False, False), ("array", "array", False, True), ("slice", "array", False, False),
+                                          ("array", "slice", False, False)):
+                s0 = SliceD(k0, 0, overlap)  # overlap: two different index arrays that agree in some position
+                s1 = SliceD(k1, 0 if same else 1, overlap)
                 yield OpD("Sliced", (), [OpD("Dense", a, label="B")], slices=[s0, s1])
     else:
         yield OpD(kind, ())
@@ -105,7 +113,7 @@ def run(idx, rep, tier):
         generic = rule.types[0] == frozenset({"LinearOperator"})
         interp = Interp(idx, rule.module)
         bad = {}
-        n_ok = n_und = 0
+        n_ok = n_und = n_raise = 0
         und_why = set()
         kinds_here = ks if not generic else ks[:1]
         for kind in kinds_here:
@@ -114,6 +122,9 @@ def run(idx, rep, tier):
                 try:
                     claims = interp.run_rule(rule.func, cfg)
                     ret = interp.last_return
+                except RaisesAtRuntime:
+                    n_raise += 1
+                    continue
                 except Undecidable as e:
                     n_und += 1
                     und_why.add(str(e))
@@ -138,9 +149,11 @@ def run(idx, rep, tier):
         rep.count("annot-sound", proved=n_ok, nontrivial=n_ok if not generic else 0, refuted=sum(b["n"] for b in bad.values()))
         if n_und and not n_ok and not bad:
             rep.undecided("annot-rule", construct, f"rule outside the interpreted fragment: {sorted(und_why)[:3]}", locs=[rule.loc])
+        elif not bad and n_und:
+            rep.undecided("annot-rule", construct, f"{n_und} of {n_ok + n_und} configurations leave the interpreted fragment: {sorted(und_why)[:3]}", locs=[rule.loc])
         elif not bad:
             rep.proved("annot-rule", construct, f"{n_ok} configurations: every claimed annotation is implied by true declarations on the parts"
-                       + (f" ({n_und} configurations raise at run time)" if n_und else ""), locs=[rule.loc], nontrivial=not generic)
+                       + (f" ({n_raise} configurations raise at run time)" if n_raise else ""), locs=[rule.loc], nontrivial=not generic)
         for (x, sig), b in sorted(bad.items()):
             k0 = rule.type_names()[0]
             why = WHY_NOT.get((k0, x), "")
@@ -205,6 +218,10 @@ def run(idx, rep, tier):
     if not n_sites:
         rep.note(f"slice-resolution: {len(readers)} functions read `.slices`; none materialises them with arange(N)[s] on this tree (the self-test keeps a firing example)")
     annotation_transfer(idx, rep)
+    from props.C16 import gram_side
+    if not gram_side(idx, rep):
+        rep.missing_anchor("eigen-solver calls on a Gram matrix in the Krylov svd rules")
+    rep.floor("gram-side", 2)
     rep.floor("annot-rule", 16)
     rep.floor("annot-sound", 5000)
     rep.floor("annot-merge", 1)
